@@ -829,6 +829,13 @@ def fals_backend(ctx, case):
 
     n, steps = case["n"], case["steps"]
     prob = ref.random_problem(pyrandom.Random(case["seed"]), n, steps, dt=case["dt"], local=case["local"], scale=case["drive"])
+    if case.get("chain"):  # a blockaded chain under a constant global drive: early times have numerically-zero Schmidt values
+        ch = case["chain"]
+        pos = np.arange(n) * ch["spacing"]
+        dist = np.abs(pos[:, None] - pos[None, :]) + np.eye(n)
+        prob = dict(n=n, steps=steps, times=[k * case["dt"] for k in range(steps + 1)],
+                    omega=np.full((steps, n), ch["omega"]), delta=np.full((steps, n), ch["delta"]),
+                    phi=np.full((steps, n), ch["phi"]), U=(5420158.53 / dist ** 6) * (1 - np.eye(n)), xy=False)
     et = [k / steps for k in range(1, steps + 1)]
     seen = {}
 
@@ -852,10 +859,16 @@ def fals_backend(ctx, case):
 
     with warnings.catch_warnings():
         warnings.simplefilter("ignore")
-        cfg = emu_mps.MPSConfig(observables=[Occupation(evaluation_times=et), CorrelationMatrix(evaluation_times=et),
-                                             Energy(evaluation_times=et), EnergyVariance(evaluation_times=et),
-                                             EnergySecondMoment(evaluation_times=et), DenseProbe()] +
-                                [EntanglementEntropy(q, evaluation_times=et, tag_suffix=f"cut{q}") for q in range(n - 1)],
+        others = [Occupation(evaluation_times=et), CorrelationMatrix(evaluation_times=et),
+                  Energy(evaluation_times=et), EnergyVariance(evaluation_times=et), EnergySecondMoment(evaluation_times=et)]
+        entropies = [EntanglementEntropy(q, evaluation_times=et, tag_suffix=f"cut{q}") for q in range(n - 1)]
+        # all callbacks of a time step share one state object and every observable re-orthogonalises it: the order of
+        # the observables decides in which gauge each one finds the state
+        order = case.get("order", "entropy-last")
+        obs_list = {"entropy-last": others + [DenseProbe()] + entropies,
+                    "entropy-first": [DenseProbe()] + entropies + others,
+                    "entropy-only": [DenseProbe()] + entropies}[order]
+        cfg = emu_mps.MPSConfig(observables=obs_list,
                                 log_level=logging.CRITICAL, optimize_qubit_ordering=False, num_gpus_to_use=0,
                                 **_trunc(case))
         res = emu_mps.MPSBackend._run_from_sequence_data(ref.to_sequence_data(prob), cfg)
@@ -871,11 +884,16 @@ def fals_backend(ctx, case):
         hs, n2 = pr["hs"], pr["n2"]
         if abs(n2 - 1.0) > TOL:
             bad(f"callbacks got a state of squared norm {n2} at t={t}", "backend-state-not-normalised")
-        if not _close(np.asarray(res.get_result("occupation", t)), pr["occ"], n2):
+        if order == "entropy-only":
+            others_ok = False
+        else:
+            others_ok = True
+        if others_ok and not _close(np.asarray(res.get_result("occupation", t)), pr["occ"], n2):
             bad(f"occupation at t={t} differs from its definition on the state handed to the callbacks", "backend-occupation" + sfx)
-        if not _close(np.asarray(res.get_result("correlation_matrix", t)), pr["cor"], n2):
+        if others_ok and not _close(np.asarray(res.get_result("correlation_matrix", t)), pr["cor"], n2):
             bad(f"correlation matrix at t={t} differs from its definition", "backend-correlation" + sfx)
-        e, m2, var = (float(res.get_result(k, t)) for k in ("energy", "energy_second_moment", "energy_variance"))
+        e, m2, var = ((float(res.get_result(k, t)) for k in ("energy", "energy_second_moment", "energy_variance"))
+                      if others_ok else (pr["e"], pr["m2"], pr["m2"] - pr["e"] ** 2))
         if not _close([e], [pr["e"]], hs * n2):
             bad(f"energy at t={t}: {e} vs <psi|H|psi> = {pr['e']}", "backend-energy" + sfx)
         if not _near(m2, pr["m2"], _tol_m2(n, n2, hs)):
@@ -901,10 +919,15 @@ def gen_backend_case(rng, tight):
     c = {"kind": "fals_backend", "n": rng.randint(5, 6), "steps": rng.choice([2, 3]), "dt": rng.choice([10.0, 20.0]),
          "seed": rng.getrandbits(40), "local": rng.random() < 0.5, "drive": rng.choice([1.0, 2.0])}
     c["steps"] = rng.choice([2, 3, 4])  # >= 2 evaluation times with different drives on the SAME Hamiltonian object
+    c["order"] = rng.choice(["entropy-last", "entropy-first", "entropy-first", "entropy-only"])
     if tight:
         c["trunc"] = {"max_bond_dim": rng.choice([2, 2, 3, 4]), "precision": rng.choice([1e-5, 1e-2, 1e-1])}
     elif rng.random() < 0.7:  # very fine precision: numerically-zero Schmidt values are kept in the state
         c["trunc"] = {"max_bond_dim": 1024, "precision": rng.choice([1e-8, 1e-9, 1e-10])}
+        if rng.random() < 0.6:
+            c.update(steps=rng.choice([5, 6, 8]), dt=10.0, n=rng.choice([5, 6]),
+                     chain={"spacing": rng.choice([6.0, 7.0, 8.0]), "omega": round(rng.uniform(3.0, 9.0), 3),
+                            "delta": round(rng.uniform(-2.0, 2.0), 3), "phi": rng.choice([0.0, 0.3, 1.0])})
     return c
 
 # ------------------------------------------------------------------------------------------------
